@@ -19,7 +19,7 @@ LEVEL_TEXT = ('every table of <=3 columns over 11 column kinds and <=3 rows over
               'back on the real code and compared bit-exactly with the input')
 LEVEL_NOTE = ('holds inside the enumerated alphabets only (no claim for >3 columns/rows, floats outside the alphabet, strings >8 bytes, header '
               'values with leading/trailing blanks); trusted: numpy, astropy.table, the comparison code in mc/props/_yanny.py')
-RULE = ('L6: 1..5 long-string columns (50-60 characters with blanks/tabs, rows up to ~330 characters) x all cell assignments, and 8..48-column tables; L1: each column kind alone / before an int anchor / after a string, rows 0..3, ALL cell tuples over the kind alphabet; L1b: all ordered pairs of scalar '
+RULE = ('L7: tables of 255..2500 rows alone and followed by a second table; L6: 1..5 long-string columns (50-60 characters with blanks/tabs, rows up to ~330 characters) x all cell assignments, and 8..48-column tables; L1: each column kind alone / before an int anchor / after a string, rows 0..3, ALL cell tuples over the kind alphabet; L1b: all ordered pairs of scalar '
         'kinds x all cell pairs; L2: all ordered tuples of 1..3 kinds x rows 0..2 x all assignments of 2 representative cells; L3: all ordered '
         'lists of 1..3 of 4 tables x all ordered struct-name selections from 5 colliding names x all ordered headers of <=3 of 6 values; '
         'L4: Table writer/reader (function and registry; bytes and str columns; meta); L5: 9 unsupported dtypes in 3 positions must raise. '
@@ -128,12 +128,8 @@ def _check_case(case, d):
             write_ndarray_to_yanny(path, arr, structnames='abc')
         except Exception:
             if os.path.exists(path):
-                try:
-                    y = yanny(path)
-                    if any(y.size(t_) > 0 for t_ in y.tables()):
-                        bad.append(('refuse:file-left-with-rows:' + t, open(path).read()[:300]))
-                except Exception:
-                    pass
+                # "refused with an exception, never written wrongly": a refused table must not be on disk afterwards
+                bad.append(('refuse:file-left-behind:' + t, 'the refused write left a file: ' + open(path).read()[-200:]))
             return bad
         bad.append(('refuse:accepted:' + t, 'dtype %s in position %s was written without an exception' % (t, case['pos'])))
         return bad
@@ -267,6 +263,7 @@ def tasks(tier):
     for ncol in (1, 2, 3, 4, 5) if T else (1, 2, 3, 4):
         t.append({'layer': 'L6', 'ncol': ncol})
     t.append({'layer': 'L6wide'})
+    t.append({'layer': 'L7'})
     for ustr in (False, True):
         for entry in ('tablefn', 'tableio'):
             t.append({'layer': 'L4', 'entry': entry, 'ustr': ustr, 'ncol': 1})
@@ -355,6 +352,13 @@ def run_task(task):
                     for r in (0, 1, 2):
                         rows = [[Y.rep_cells(k)[(i + j) % 2] for j, k in enumerate(kinds)] for i in range(r)]
                         _do(acc, {'entry': 'ndarray', 'tables': [{'name': 'abc', 'cols': cols, 'rows': rows}]}, d)
+        elif L == 'L7':
+            # long tables: row counts around round numbers (buffering / block boundaries), alone and followed by a second table
+            for n in (255, 256, 257, 999, 1000, 1001, 2000, 2500):
+                big = {'name': 'abc', 'cols': [['seq', 'i4'], ['s', 'S']], 'rows': [[i, 'r%d' % (i % 7)] for i in range(n)]}
+                _do(acc, {'entry': 'ndarray', 'tables': [big]}, d)
+                _do(acc, {'entry': 'ndarray', 'aslist': True,
+                          'tables': [big, {'name': 'tail', 'cols': [['c0', 'f8']], 'rows': [[0.5], [-0.0], [1.0 / 3.0]]}]}, d)
         elif L == 'L4':
             ncol = task['ncol']
             first = [task['first']] if task.get('first') else []
